@@ -11,7 +11,7 @@ def run_harnesses(names):
     repo = os.environ.get("VERIF_REPO", "/repo")
     kdir = src
     if os.path.abspath(repo) != "/repo":
-        kdir = os.path.join(VERIF, "build", "kani_crate")
+        kdir = os.path.join(os.environ.get("VERIF_BUILD", os.path.join(VERIF, "build")), "kani_crate")
         os.makedirs(os.path.join(kdir, "src"), exist_ok=True); os.makedirs(os.path.join(kdir, ".cargo"), exist_ok=True)
         shutil.copyfile(os.path.join(src, "src", "lib.rs"), os.path.join(kdir, "src", "lib.rs"))
         shutil.copyfile(os.path.join(src, ".cargo", "config.toml"), os.path.join(kdir, ".cargo", "config.toml"))
